@@ -34,7 +34,7 @@ theorem de_ser : ∀ (s : Schema) (v : Val), wf s = true → hasType s v = true 
   | .int _ _, v, _, ht => by cases v <;> simp_all [hasType, ser, de]
   | .flt, v, _, ht => by cases v <;> simp_all [hasType, ser, de]
   | .str, v, _, ht => by cases v <;> simp_all [hasType, ser, de]
-  | .hex _, v, _, ht => by cases v <;> simp_all [hasType, ser, de]
+  | .hex _ _, v, _, ht => by cases v <;> simp_all [hasType, ser, de]
   | .any, v, _, ht => by cases v <;> simp_all [hasType, ser, de]
   | .map, v, _, ht => by cases v <;> simp_all [hasType, ser, de]
   | .opt s, v, hw, ht => by
@@ -145,7 +145,7 @@ theorem deObj_ser : ∀ (s : Schema) (v : Val) (O : Kvs), wf s = true → hasTyp
       simp [ser, objKvs, lookup, hne] at ht' hc'
       simp [de, ht', hc', this]
   | .bool, _, _, _, _, hf, _, _ | .int _ _, _, _, _, _, hf, _, _ | .flt, _, _, _, _, hf, _, _ | .str, _, _, _, _, hf, _, _
-  | .hex _, _, _, _, _, hf, _, _ | .any, _, _, _, _, hf, _, _ | .opt _, _, _, _, _, hf, _, _ | .seq _ _, _, _, _, _, hf, _, _
+  | .hex _ _, _, _, _, _, hf, _, _ | .any, _, _, _, _, hf, _, _ | .opt _, _, _, _, _, hf, _, _ | .seq _ _, _, _, _, _, hf, _, _
   | .map, _, _, _, _, hf, _, _ | .unitEnum _, _, _, _, _, hf, _, _ | .untagged _, _, _, _, _, hf, _, _
   | .internal _ _, _, _, _, _, hf, _, _ => by simp [flattenable] at hf
 theorem deFields_ser : ∀ (fs : Fields) (vs : List Val) (O : Kvs), wfFields fs = true → (allNames fs).Nodup →
